@@ -56,7 +56,7 @@ func (rb *responseBuilder) SendUpdates(extensions []graphsync.ExtensionData) {
 	for _, extension := range extensions {
 		rb.SendExtensionData(extension)
 	}
-	rb.operations = append(rb.operations, statusOperation{rb.requestID, graphsync.PartialResponse})
+	rb.operations = append(rb.operations, partialResponseOperation{rb.requestID})
 }
 
 func (rb *responseBuilder) Context() context.Context {
@@ -98,6 +98,22 @@ func (fo statusOperation) build(builder *messagequeue.Builder) {
 }
 
 func (fo statusOperation) size() uint64 {
+	return 0
+}
+
+// partialResponseOperation is the status part of an update: a partial response, unless the
+// unsent message already carries a status for the request. An update must not replace the
+// final status of a response that finished in the meantime, or the request would never be
+// seen to terminate by either side.
+type partialResponseOperation struct {
+	requestID graphsync.RequestID
+}
+
+func (po partialResponseOperation) build(builder *messagequeue.Builder) {
+	builder.AddPartialResponse(po.requestID)
+}
+
+func (po partialResponseOperation) size() uint64 {
 	return 0
 }
 
